@@ -2,6 +2,8 @@ package props
 
 import (
 	"fmt"
+	"path/filepath"
+	"verif/checker/internal/skel"
 
 	"verif/checker/internal/core"
 	"verif/checker/internal/engb"
@@ -19,6 +21,10 @@ func allOfMembers(cfg gen.Config) []member {
 		// as the root, and as a (required / optional) property
 		out = append(out, member{name: "allOf root: " + name, cfg: cfg, root: all.Clone()})
 		out = append(out, member{name: "allOf property: " + name, cfg: cfg, root: obj(&fam.Prop{Label: "w", Spec: all.Clone(), Required: true})})
+		// as a definition that two properties refer to (one type, generated once)
+		d := all.Clone()
+		d.Ref = "$defs"
+		out = append(out, member{name: "allOf definition referenced twice: " + name, cfg: cfg, root: obj(&fam.Prop{Label: "w1", Spec: d, Required: true}, &fam.Prop{Label: "w2", Spec: d})})
 	}
 	// disjoint properties, each branch with its own required and constraints
 	wrap("disjoint", &fam.Spec{Kind: "object", AllOf: []*fam.Spec{
@@ -65,7 +71,8 @@ func C11(c *core.Ctx) {
 		"a referenced branch), 2..4 branches, as root and as a property. B-ERR instance: an unresolvable branch reference is an error. " +
 		"B-REFCACHE: the branch-resolution cache keyed by the raw $ref string belongs to the per-file generator object. " +
 		"Not decided: branch-order dependence beyond these families; non-object branches; the fidelity of the mergo model itself."
-	rules := ruleSet("A-ANYOF", "A-REQ", "A-REJ", "A-NOEXTRA", "A-NILG", "A-TAG", "A-MAP")
+	rules := ruleSet("A-ANYOF", "A-REQ", "A-REJ", "A-NOEXTRA", "A-NILG", "A-TAG", "A-MAP", "A-TYP")
+	skel.DepsDir = filepath.Join(c.VerifDir, "checker", "testdata", "emitdeps")
 	cfg := gen.DefaultConfig()
 	ms := anyOfMembers(c.Tier, cfg)
 	ms = append(ms, allOfMembers(cfg)...)
@@ -79,7 +86,8 @@ func C11(c *core.Ctx) {
 				}
 				keep = append(keep, is)
 			}
-			return keep
+			// the composed types must be declared once and compile (a definition referenced twice is generated once)
+			return append(keep, w.TypIssues(c.Prog.Repo)...)
 		})
 	}
 	c.Floor("families", c.Counts["members"], 24, "family members")
